@@ -289,3 +289,53 @@ void _ZN7QString14toLower_helperERKS_(char *ret, char *self) { *(QAD**)ret = c02
 void _ZNK7QString5splitE5QChar6QFlagsIN2Qt18SplitBehaviorFlagsEENS2_15CaseSensitivityE(char *ret, char *self, uint16_t sep, uint32_t beh, uint32_t cs) { *(char**)ret = (char*)&G__ZN9QListData11shared_nullE; }
 #endif
 void _Z9qBadAllocv(void) { ASSERT(0, "qBadAlloc (allocation failure is out of scope)"); ASSUME(0); }
+/* ---- QVariant (libQt5Core), as far as QXmppDataForm uses it: bool, QString, QStringList. 16-byte object: word 0 = payload (bool / string block / list block),
+   word 1 = kind (0 invalid, 1 bool, 2 string, 3 string list). Conversions between kinds follow Qt (bool <-> "true"/"false", string -> one-element list is NOT
+   modelled: the form code reads a field value with the conversion that matches what parse() stored; a mismatch is a model obligation). ---- */
+#ifdef HAVE_T_class_QVariant
+/* typed access (a 64-bit store over the uint32 bit-field word + padding would make the whole object opaque for symex); kinds: 0 invalid, 1 false, 4 true, 2 string, 3 list */
+#define QV_P(v) (((struct T_class_QVariant*)(v))->f0.f0.f0)
+#define QV_K(v) (((struct T_class_QVariant*)(v))->f0.f1)
+void _ZN8QVariantC1Ev(char *self) { QV_P(self) = 0; QV_K(self) = 0; }
+void _ZN8QVariantC1Eb(char *self, uint8_t b) { QV_P(self) = 0; QV_K(self) = b ? 4 : 1; }
+void _ZN8QVariantC1ERK7QString(char *self, char *s) { QV_P(self) = *(char**)s; QV_K(self) = 2; }
+void _ZN8QVariantC1ERK11QStringList(char *self, char *l) { struct ld *d = LD(l); if (d->ref != (uint32_t)-1 && d->ref != 0) d->ref++; QV_P(self) = (char*)d; QV_K(self) = 3; }
+void _ZN8QVariantC1ERKS_(char *self, char *o) { QV_P(self) = QV_P(o); QV_K(self) = QV_K(o); if (QV_K(o) == 3) { struct ld *d = (struct ld*)QV_P(o); if (d->ref != (uint32_t)-1 && d->ref != 0) d->ref++; } }
+void _ZN8QVariantD1Ev(char *self) { }
+char* _ZN8QVariantaSERKS_(char *self, char *o) { _ZN8QVariantC1ERKS_(self, o); return self; }
+uint8_t _ZNK8QVariant6toBoolEv(char *self) { if (QV_K(self) == 4) return 1; if (QV_K(self) == 1) return 0; ASSERT(QV_K(self) == 0, "C02 env: QVariant::toBool of a non-bool value is not modelled"); return 0; }
+void _ZNK8QVariant8toStringEv(char *ret, char *self) { if (QV_K(self) == 2) { *(char**)ret = QV_P(self); return; } ASSERT(QV_K(self) == 0, "C02 env: QVariant::toString of a non-string value is not modelled"); *(QAD**)ret = C02_EMPTY; }
+#ifdef HAVE_G__ZN9QListData11shared_nullE
+void _ZNK8QVariant12toStringListEv(char *ret, char *self) { if (QV_K(self) == 3) { struct ld *d = (struct ld*)QV_P(self); if (d->ref != (uint32_t)-1 && d->ref != 0) d->ref++; *(char**)ret = (char*)d; return; }
+  ASSERT(QV_K(self) == 0, "C02 env: QVariant::toStringList of a non-list value is not modelled"); *(char**)ret = (char*)&G__ZN9QListData11shared_nullE; }
+#endif
+#endif
+/* ---- QMimeDatabase / QMimeType / QUrl (Qt): opaque holders of the string they were made from; EVERY name is a known mime type and QUrl::toString() gives the
+   original text back (Qt's normalisation is not modelled). Only reached by <uri/> children of a <media/> element, which the vocabularies do not contain. ---- */
+void _ZN13QMimeDatabaseC1Ev(char *self) { }
+void _ZN13QMimeDatabaseD1Ev(char *self) { }
+void _ZNK13QMimeDatabase15mimeTypeForNameERK7QString(char *ret, char *self, char *name) { *(char**)ret = *(char**)name; }
+void _ZN9QMimeTypeC1Ev(char *self) { *(QAD**)self = C02_EMPTY; }
+void _ZN9QMimeTypeC1ERKS_(char *self, char *o) { *(char**)self = *(char**)o; }
+void _ZN9QMimeTypeD1Ev(char *self) { }
+char* _ZN9QMimeTypeaSERKS_(char *self, char *o) { *(char**)self = *(char**)o; return self; }
+void _ZNK9QMimeType4nameEv(char *ret, char *self) { *(char**)ret = *(char**)self; }
+void _ZN4QUrlC1Ev(char *self) { *(QAD**)self = C02_EMPTY; }
+void _ZN4QUrlC1ERK7QStringNS_11ParsingModeE(char *self, char *s, uint32_t mode) { *(char**)self = *(char**)s; }
+void _ZN4QUrlC1ERKS_(char *self, char *o) { *(char**)self = *(char**)o; }
+void _ZN4QUrlD1Ev(char *self) { }
+char* _ZN4QUrlaSERKS_(char *self, char *o) { *(char**)self = *(char**)o; return self; }
+void _ZNK4QUrl8toStringE12QUrlTwoFlagsINS_19UrlFormattingOptionENS_25ComponentFormattingOptionEE(char *ret, char *self, uint32_t opt) { *(char**)ret = *(char**)self; }
+/* ---- qWarning() << ... : logging is a no-op (DESIGN 2.5). QDebug is one pointer to a stream record; the inline operator<< reads its `space` flag ---- */
+static char *c02_dbg_stream[16];
+void _ZNK14QMessageLogger7warningEv(char *ret, char *self) { for (uint32_t i = 0; i < 16; i++) c02_dbg_stream[i] = 0; *(char**)ret = (char*)c02_dbg_stream; }
+void _ZNK14QMessageLogger5debugEv(char *ret, char *self) { _ZNK14QMessageLogger7warningEv(ret, self); }
+void _ZN6QDebugD1Ev(char *self) { }
+void _ZN6QDebug9putStringEPK5QCharm(char *self, char *p, uint64_t n) { }
+char* _ZN11QTextStreamlsERK7QString(char *self, char *s) { return self; }
+char* _ZN11QTextStreamlsEc(char *self, uint8_t c) { return self; }
+void _ZN7QString20fromLocal8Bit_helperEPKci(char *ret, char *p, uint32_t n) { _ZN7QString15fromUtf8_helperEPKci(ret, p, n); }
+void _ZNSaIcEC2Ev(char *self) { }
+void _ZNSaIcEC2ERKS_(char *self, char *o) { }
+void _ZNSaIcED2Ev(char *self) { }
+void _ZSt19__throw_logic_errorPKc(char *m) { VP_ASSERT(0, "std::logic_error thrown"); ASSUME(0); }
